@@ -12,7 +12,7 @@ import os
 
 PROPERTY = 'C10'
 LEVEL = 'translation_validation'
-BUDGET_S = {'quick': 900, 'thorough': 7200}
+BUDGET_S = {'quick': 3600, 'thorough': 14400}
 
 from . import ctxgrid as G
 
